@@ -261,6 +261,7 @@ func runC17(c *Check) {
 				pushBack := func(n *Node) bool {
 					return CallName(n) == "(*time.Timer).Reset" && RecvTerm(n).String() == blockTimer && resetsByBlockTime(p, n)
 				}
+				ruleResetReferenceBeforeProduction(c, p, g, "lazy", fn, prods, sel)
 				path := g.PathAvoiding(prods, nodeSet(sel), pushBack)
 				c.Decide("C17-R6", "lazy ⟂ production→block-timer-pushed-back", fn, p.InstrPos(prods[0].In), "every path from a production back to the select resets the block timer by the block interval",
 					"after a block was produced (e.g. by the idle timer) the loop can wait again without pushing the block timer back by the block interval: the block timer keeps its old phase and the next block can follow in less than one block interval", g, path)
@@ -289,6 +290,7 @@ func runC17(c *Check) {
 				c.Decide("C17-R3", "normal ⟂ block-timer-rearmed", fn, p.InstrPos(e.In), "every continuing path through the block-timer case resets the timer",
 					"the normal loop can return to its select without re-arming the block timer: block production stops", g, path)
 				pushBack := func(n *Node) bool { return CallName(n) == "(*time.Timer).Reset" && resetsByBlockTime(p, n) }
+				ruleResetReferenceBeforeProduction(c, p, g, "normal", fn, g.Select(isProduce), sel)
 				path3 := g.PathAvoiding(g.Select(isProduce), nodeSet(sel), pushBack)
 				c.Decide("C17-R6", "normal ⟂ production→block-timer-pushed-back", fn, p.InstrPos(e.In), "every path from a production back to the select resets the block timer by the block interval",
 					"after a block was produced the normal loop can wait again on a timer that was not reset by the block interval", g, path3)
@@ -535,6 +537,8 @@ func runC17(c *Check) {
 	c.MinInstances("C17-R3", 3)
 	c.MinInstances("C17-R4", 2)
 	c.MinInstances("C17-R6", 2)
+	c.Doc("C17-R11", "VP+EO: a timer reset that follows a production and is computed from an instant (the remaining part of the interval since time.Now()) takes that instant before the production call, not after it: the time spent producing counts against the interval (otherwise a notification that arrives during production is served a whole block interval after production ended, and blocks come every interval + production time).")
+	c.MinInstances("C17-R11", 2)
 }
 
 // resetsByBlockTime: the duration of the timer reset derives from the configured block interval
@@ -794,4 +798,64 @@ func defaultedThroughTable(g *Graph, suffix string) (string, bool) {
 		}
 	}
 	return "", false
+}
+
+// ruleResetReferenceBeforeProduction (C17-R11): for every timer Reset reachable from a production
+// before the loop waits again whose duration derives from a time.Now() call: that call is not
+// reachable from the production within the iteration (it was made before production began).
+var c17r11Seen = map[string]bool{}
+
+func ruleResetReferenceBeforeProduction(c *Check, p *Prog, g *Graph, mode, fn string, prods, sel []*Node) {
+	if c17r11Seen[mode] {
+		return
+	}
+	c17r11Seen[mode] = true
+	after := g.Reachable(prods, nodeSet(sel))
+	n := 0
+	for nd := range after {
+		if nd.Kind != NInstr || CallName(nd) != "(*time.Timer).Reset" {
+			continue
+		}
+		d := ArgTerm(nd, 1)
+		if d == nil {
+			continue
+		}
+		var nows []ssa.Value
+		var collect func(t *Term, depth int)
+		collect = func(t *Term, depth int) {
+			t.Walk(func(x *Term) bool {
+				if x.Op == "call" && x.Name == "time.Now" && x.V != nil {
+					nows = append(nows, x.V)
+				}
+				return true
+			})
+		}
+		collect(d, 0)
+		if len(nows) == 0 {
+			continue
+		}
+		n++
+		inst := mode + " ⟂ " + trunc(RecvTerm(nd).String(), 20) + ".Reset reference instant precedes production @" + p.InstrPos(nd.In)
+		var late []*Node
+		for _, nv := range nows {
+			nv := nv
+			if pth := g.PathAvoiding(prods, func(x *Node) bool {
+				return x.Kind == NInstr && x.In != nil && ssa.Value(nil) != nv && instrValue(x.In) == nv
+			}, nodeSet(sel)); pth != nil {
+				late = pth
+			}
+		}
+		c.Decide("C17-R11", inst, fn, p.InstrPos(nd.In), "the instant the remaining interval is measured from is taken before the production call",
+			"the timer is re-armed for the remaining part of the interval measured from an instant taken after the production: the time spent producing is not deducted, so a notification that arrived during production waits a whole further block interval and blocks are spaced interval + production time apart", g, late)
+	}
+	if n == 0 {
+		c.OK("C17-R11", mode+" ⟂ no reset computed from an instant", fn, "", "no timer reset after a production derives from time.Now()", false)
+	}
+}
+
+func instrValue(in ssa.Instruction) ssa.Value {
+	if v, ok := in.(ssa.Value); ok {
+		return v
+	}
+	return nil
 }
